@@ -1,0 +1,8 @@
+//go:build !verif
+
+// Package verifhook provides named yield points used by external runtime-verification
+// harnesses. Without the `verif` build tag every call is an empty, inlinable function.
+package verifhook
+
+// At marks a named yield point. No-op unless built with the `verif` tag.
+func At(string) {}
